@@ -164,7 +164,15 @@ func runC16(cfg *vh.Config) error {
 				prefix = "C16 package with property names whose JSON name is not the protobuf default (fooID, a1b, HTTPServer)"
 			}
 			if bad != nil {
-				res.Fail(vh.Failure{Case: caseNo, Stream: stream, Sig: fmt.Sprintf("%s -> stage %s %s: %s", prefix, bad.Name, bad.Status, failureClass(bad.Msg)),
+				sig := fmt.Sprintf("%s -> stage %s %s: %s", prefix, bad.Name, bad.Status, failureClass(bad.Msg))
+				// two input classes the compiler accepts and a later stage cannot take (NOTICE-4): one signature each
+				switch {
+				case p.Clash == "case" && strings.Contains(bad.Msg, "camel-case name"):
+					sig = "C16 valid package with enum options that differ only in case (Active, ACTIVE) -> stage image err: camel-case name conflict of enum values"
+				case p.Clash == "split" && strings.Contains(bad.Msg, "interface conversion") && strings.Contains(bad.Msg, "EnumSchema"):
+					sig = "C16 valid package with object SplitHost_Kind next to SplitHost's inline enum kind -> stage " + bad.Name + " " + bad.Status + ": split-name collision (buildEnumFieldSchema)"
+				}
+				res.Fail(vh.Failure{Case: caseNo, Stream: stream, Sig: sig,
 					Clause: "the compiled output can be turned into image, source API, client API, J5 JSON and OpenAPI without error or crash", Input: input, Got: bad})
 			} else {
 				oracleClient(res, caseNo, stream, prefix, p, r, input)
@@ -180,7 +188,7 @@ func runC16(cfg *vh.Config) error {
 		addCase(stream, term, input, map[string]any{"stages": r.Stages, "methods": r.Methods, "schemas": r.Schemas})
 		if pks[i].mut == nil && r.status("source") == "ok" {
 			decl, extra := coqDeclPackage(p, r.Img)
-			compileCases = append(compileCases, compileRec{term: fmt.Sprintf("CCompile %s %s %s\n    %s", decl, vh.BoolTerm(extra), vh.BoolTerm(p.Awkward || p.FlatHost != ""), coqImg(r.Img)), input: input})
+			compileCases = append(compileCases, compileRec{term: fmt.Sprintf("CCompile %s %s %s\n    %s", decl, vh.BoolTerm(extra), vh.BoolTerm(p.Awkward), coqImg(r.Img)), input: input})
 		}
 		if pks[i].mut == nil {
 			res.Sample(map[string]any{"stream": stream, "package": p.Pkg, "services": len(p.Services), "schemas": len(p.Schemas), "entity": p.Entity != nil, "stages_ok": bad == nil}, 3)
